@@ -119,6 +119,22 @@ Proof.
   cbn [map unwrap any_attr field_of]. rewrite Hl. destruct (negb (Z.land z mask =? 0)); [eexists; reflexivity|exact IH].
 Qed.
 
+Section FirstReads.
+  Variable T : tables.
+
+  Lemma first_reads_ok t1 p s : first_reads t1 = true -> okinv (dec_ty T true t1 p None false) s (fun _ tr _ => 1 <= blen (bytes_of tr)).
+  Proof.
+    destruct t1 as [pp|? ? ?|name szf buf szp el|name szf buf szp inner|? ?]; try discriminate; cbn [first_reads]; intros Hw.
+    - change (dec_ty T true (TPrim pp) p None false) with (dec_prim true pp p).
+      eapply oki_weaken; [|apply prim_reads]. cbv beta. intros _ tr _ H. lia.
+    - rewrite dec_ty_tpm2b_list. unfold dec_tpm2b_list. apply reads_after. intros _ s1. apply reads_bind.
+      eapply oki_weaken; [|apply prim_reads]. cbv beta. intros _ tr _ H. lia.
+    - rewrite dec_ty_tpm2b_struct. apply reads_after. intros _ s1. cbv zeta. apply reads_bind.
+      eapply oki_weaken; [|apply prim_reads]. cbv beta. intros _ tr _ H. lia.
+  Qed.
+
+End FirstReads.
+
 Section Sized.
   Variable T : tables.
   Variable e : ty.
@@ -133,22 +149,11 @@ Section Sized.
 
   Definition ebody (p : path) : M (option value) := dec_ty T true e p None false.
 
-  Lemma first_reads_ok t1 p s : first_reads t1 = true -> okinv (dec_ty T true t1 p None false) s (fun _ tr _ => 1 <= blen (bytes_of tr)).
-  Proof.
-    destruct t1 as [pp|? ? ?|name szf buf szp el|name szf buf szp inner|? ?]; try discriminate; cbn [first_reads]; intros Hw.
-    - change (dec_ty T true (TPrim pp) p None false) with (dec_prim true pp p).
-      eapply oki_weaken; [|apply prim_reads]. cbv beta. intros _ tr _ H. lia.
-    - rewrite dec_ty_tpm2b_list. unfold dec_tpm2b_list. apply reads_after. intros _ s1. apply reads_bind.
-      eapply oki_weaken; [|apply prim_reads]. cbv beta. intros _ tr _ H. lia.
-    - rewrite dec_ty_tpm2b_struct. apply reads_after. intros _ s1. cbv zeta. apply reads_bind.
-      eapply oki_weaken; [|apply prim_reads]. cbv beta. intros _ tr _ H. lia.
-  Qed.
-
   Lemma elem_reads p s : okinv (ebody p) s (fun _ tr _ => 1 <= blen (bytes_of tr)).
   Proof.
     unfold ebody. destruct e as [|name isp [|n t1 r| |]| | |]; try discriminate. cbn [reads_one] in Hre.
     rewrite dec_ty_struct. cbn [andb]. cbv zeta.
-    apply reads_after. intros _ s1. apply reads_bind. rewrite dec_fields_plain. apply reads_bind. apply first_reads_ok. exact Hre.
+    apply reads_after. intros _ s1. apply reads_bind. rewrite dec_fields_plain. apply reads_bind. apply (first_reads_ok T). exact Hre.
   Qed.
 
   Lemma elem_r2 p s : wf_st s -> Forall isbyte (inp s) ->
